@@ -450,8 +450,10 @@ func genLimiterScenario(r *kit.Rng, tier string) *scenario {
 			readAll(q)
 			sc.Ops = append(sc.Ops, &opSpec{Kind: "exceeded", Req: &qq})
 			readAll(q)
-		case x < 10:
+		case x < 11: // reset, then the same request again: its limits must be full
 			sc.Ops = append(sc.Ops, &opSpec{Dt: dt, Kind: "resetlimits", Req: &qq})
+			sc.Ops = append(sc.Ops, &opSpec{Kind: "exceeded", Req: &qq})
+			readAll(q)
 		default:
 			sc.Ops = append(sc.Ops, &opSpec{Dt: dt, Kind: "exceeded", Req: &qq})
 		}
